@@ -43,7 +43,10 @@ fn cmd_run(args: &[String]) -> i32 {
     let to: u64 = arg(args, "--to").and_then(|s| s.parse().ok()).unwrap_or(100);
     let thorough = arg(args, "--tier") == Some("thorough");
     let max_samples: usize = arg(args, "--samples").and_then(|s| s.parse().ok()).unwrap_or(2);
-    let ctx = Ctx { k: w1::measure_consts().k };
+    if let Some(p) = arg(args, "--trace-cases") {
+        *cases::TRACE.lock().unwrap() = Some(std::fs::File::create(p).expect("trace file"));
+    }
+    let ctx = Ctx { k: w1::measure_consts().k, focus: focus_of(prop) };
     let out = std::io::stdout();
     let mut stats = Stats::default();
     let mut fps: BTreeSet<u64> = BTreeSet::new();
@@ -52,6 +55,7 @@ fn cmd_run(args: &[String]) -> i32 {
     let mut seen_sigs: BTreeSet<String> = BTreeSet::new();
     let mut samples: Vec<serde_json::Value> = Vec::new();
     let mut n_viol: u64 = 0;
+    let mut slowest: (u64, u64) = (0, 0);
     let (p0, e0, _) = simalloc::fired_totals();
     for idx in from..to {
         {
@@ -60,6 +64,7 @@ fn cmd_run(args: &[String]) -> i32 {
             let _ = o.flush();
         }
         let rs = run_seed(seed, prop, idx);
+        let t_run = std::time::Instant::now();
         let mut sink = |c: &Case, res: CaseResult| {
             evaluations += 1;
             stats.merge(&res.stats);
@@ -79,12 +84,20 @@ fn cmd_run(args: &[String]) -> i32 {
                 }
             } else if let Some(v) = res.violations.first() {
                 *foreign.entry(v.sig.clone()).or_insert(0) += 1;
+                for s in &res.side {
+                    *foreign.entry(s.sig.clone()).or_insert(0) += 1;
+                }
                 if v.prop == "HARNESS" {
                     let line = json!({"t": "harness", "run": idx, "sig": v.sig, "detail": v.detail, "case": c});
                     let mut o = out.lock();
                     let _ = writeln!(o, "{}", line);
                 }
-            } else if props::nontrivial(prop, &res.stats) {
+            } else {
+                for s in &res.side {
+                    *foreign.entry(s.sig.clone()).or_insert(0) += 1;
+                }
+            }
+            if res.violations.is_empty() && props::nontrivial(prop, &res.stats) {
                 fps.insert(res.fp);
                 if samples.len() < max_samples {
                     samples.push(json!({"run": idx, "case": c}));
@@ -92,6 +105,10 @@ fn cmd_run(args: &[String]) -> i32 {
             }
         };
         props::run_index(prop, rs, thorough, &ctx, &mut sink);
+        let dt = t_run.elapsed().as_millis() as u64;
+        if dt > slowest.0 {
+            slowest = (dt, idx);
+        }
         {
             let mut o = out.lock();
             let _ = writeln!(o, "END {}", idx);
@@ -103,7 +120,7 @@ fn cmd_run(args: &[String]) -> i32 {
     let line = json!({"t": "summary", "prop": prop, "profile": profile_name(), "from": from, "to": to,
         "evaluations": evaluations, "violating_cases": n_viol, "steps": stats.steps, "probes": probes,
         "faults_fired": {"allocator_refusal_by_plan": p1 - p0, "allocator_refusal_exhaustion": e1 - e0},
-        "foreign": foreign, "fps": fpv, "samples": samples, "k": ctx.k, "sentinel_mod_16": simalloc::sentinel() % 16});
+        "foreign": foreign, "slowest_ms": slowest.0, "slowest_run": slowest.1, "fps": fpv, "samples": samples, "k": ctx.k, "sentinel_mod_16": simalloc::sentinel() % 16});
     let mut o = out.lock();
     let _ = writeln!(o, "{}", line);
     0
@@ -116,7 +133,7 @@ fn load_case(path: &str) -> CaseFile {
 
 fn cmd_exec(args: &[String]) -> i32 {
     let cf = load_case(&args[0]);
-    let ctx = Ctx { k: w1::measure_consts().k };
+    let ctx = Ctx { k: w1::measure_consts().k, focus: focus_of(&cf.property) };
     let res = run_case(&cf.case, &ctx);
     let sigs: Vec<&str> = res.violations.iter().map(|v| v.sig.as_str()).collect();
     println!("{}", json!({"t": "exec", "profile": profile_name(), "violations": res.violations, "sigs": sigs}));
@@ -130,7 +147,7 @@ fn cmd_exec(args: &[String]) -> i32 {
 fn cmd_minimize(args: &[String]) -> i32 {
     let cf = load_case(&args[0]);
     let out = arg(args, "--out").expect("--out");
-    let ctx = Ctx { k: w1::measure_consts().k };
+    let ctx = Ctx { k: w1::measure_consts().k, focus: focus_of(&cf.property) };
     let min = minimize::minimize(&cf.case, &cf.signature, &ctx);
     let cf2 = CaseFile { case: min, ..cf };
     std::fs::write(out, serde_json::to_string_pretty(&cf2).unwrap()).expect("write");
